@@ -478,9 +478,9 @@ func (e *Explorer) Explore() *Stats {
 					violMu.Lock()
 					for _, v := range c.viol {
 						st.NViolations++
-						if !violSeen[v.Key] && len(st.Violations) < 400 && violClass[v.What] < 25 {
+						if !violSeen[v.Key] && len(st.Violations) < 400 && violClass[ClassOf(v.What)] < 25 {
 							violSeen[v.Key] = true
-							violClass[v.What]++
+							violClass[ClassOf(v.What)]++
 							v.Vector = c.Vector()
 							v.Labels = c.labels()
 							v.Harness = h.Name
